@@ -27,8 +27,16 @@ COPY = ("suit_generator", "ncs", "build_configuration", "requirements.txt")
 
 
 def load_variants():
+    """Hand-written variants plus the seeded changes kept under /verif/seeded (patch.diff; expected to fire: meta.json checks.fired)."""
     from variants import VARIANTS
-    return VARIANTS
+    out = list(VARIANTS)
+    for d in sorted((VERIF / "seeded").glob("*/meta.json")):
+        meta = json.loads(d.read_text())
+        fired = (meta.get("checks") or {}).get("fired") or []
+        if fired:
+            out.append({"id": "seeded-" + meta["id"], "kind": "break", "props": list(fired), "edits": [], "patch": str(d.parent / "patch.diff"),
+                        "silent": []})
+    return out
 
 
 def make_copy(repo: Path) -> Path:
@@ -45,6 +53,10 @@ def make_copy(repo: Path) -> Path:
 def run_variant(v, repo: Path, verbose=False):
     d = make_copy(repo)
     try:
+        if v.get("patch"):
+            r = subprocess.run(["patch", "-p1", "-s", "-d", str(d), "-i", v["patch"]], capture_output=True, text=True)
+            if r.returncode != 0:
+                return {"id": v["id"], "status": "STALE", "detail": f"patch does not apply: {(r.stdout + r.stderr)[-200:]}"}
         for edit in v["edits"]:
             rel, old, new = edit[:3]
             every = len(edit) > 3 and edit[3] == "all"
